@@ -223,7 +223,9 @@ def make_problem(database=None, variant=0):
     problem = OptimizationProblem(space, database=database)
     problem.objective = MDOFunction(lambda x: float(x @ x), "f", jac=lambda x: 2 * x, expr="x'x",
                                     input_names=["x"], dim=1)
-    problem.add_constraint(MDOFunction(lambda x: x[:1] - 1, "g", expr="x[0]-1", input_names=["x"], dim=1),
+    # a namespaced constraint name (":" is the namespace separator) in half of the variants with a solution
+    g = "ns:g" if variant % 4 >= 2 else "g"
+    problem.add_constraint(MDOFunction(lambda x: x[:1] - 1, g, expr="x[0]-1", input_names=["x"], dim=1),
                            constraint_type="ineq")
     problem.add_constraint(MDOFunction(lambda x: x[1:] - 0.5, "c", expr="x[1]-0.5", input_names=["x"], dim=1),
                            constraint_type="eq", value=0.25)
@@ -235,7 +237,7 @@ def make_problem(database=None, variant=0):
         problem.solution = OptimizationResult(
             x_0=np.array([1.0, 0.5]), x_opt=np.array([0.25, 0.5]), f_opt=0.3125, status=0, message="done",
             n_obj_call=3, n_grad_call=2, n_constr_call=3, is_feasible=True, optimizer_name="harness",
-            constraint_values={"g": np.array([-0.75])}, constraints_grad={"g": np.array([[1.0, 0.0]])},
+            constraint_values={g: np.array([-0.75])}, constraints_grad={g: np.array([[1.0, 0.0]])},
             x_0_as_dict={"x": np.array([1.0, 0.5])}, x_opt_as_dict={"x": np.array([0.25, 0.5])}, optimum_index=2)
     return problem
 
